@@ -828,7 +828,7 @@ const codecRule = "rapid: configuration (node bits 8/9/10 x node-at-lowest x epo
 var PartCodec = &vkit.Part[CaseCodec]{
 	Property: Property, Name: "codec",
 	Rule:  codecRule,
-	Quick: 20000, Thorough: 200000,
+	Quick: 80000, Thorough: 200000,
 	Gen: GenCodec, Exec: ExecCodec,
 }
 
@@ -841,13 +841,13 @@ var PartGrid = &vkit.Part[CaseCodec]{
 var PartRange = &vkit.Part[CaseRange]{
 	Property: Property, Name: "ranges",
 	Rule:  "rapid: configuration as part codec; begin <= end instants given as millisecond offset from the epoch inside the width (same mixture as the timestamps, then moved to .000/.001/.999/any position of the absolute second) plus 0..999999 ns, carried in one of four time zones; end = begin / same second / next seconds / top of the width / independent; 0-6 extra probe ids around both edges. TimeBetweenID(begin,end), TimeIDRange(begin), TimeIDRange(end) are each decided on 19 constructed ids (first ms of the first second with low 0/ones/mixed, the ms before it, first ms of the last second, first ms of the second after it, the middle, id 0 and the largest id) plus the probes: timestamp in [floor(b) s, floor(e) s] => inside, timestamp < floor(b) s or >= floor(e) s + 1000 ms => outside, rest of the last second not asserted. Non-trivial: begin or end has a non-zero sub-second part; distinct = distinct case JSON",
-	Quick: 20000, Thorough: 200000,
+	Quick: 80000, Thorough: 200000,
 	Gen: GenRange, Exec: ExecRange,
 }
 
 var PartSetup = &vkit.Part[CaseSetup]{
 	Property: Property, Name: "setup",
 	Rule:  "rapid: a base configuration (VerifSetConfig), then Setup with any subset of UseEpoch(instant 2000..2200 with sub-ms part, any zone) / UseNodeMode(8|9|10) / NodeAtLowest in either order; IDParse of a probe id built for the expected layout (unset options keep the base value, node-at-lowest is sticky) must give field+epoch, node, step. Non-trivial: at least one option and a probe with non-zero node and step and timestamp >= 2^20",
-	Quick: 3000, Thorough: 20000,
+	Quick: 12000, Thorough: 20000,
 	Gen: GenSetup, Exec: ExecSetup,
 }
